@@ -44,9 +44,14 @@ const (
 	kError
 	kEmpty
 	kSilent
+	kIncompleteErr // an incomplete response together with an error
+	kCompleteErr   // a complete response together with an error
 )
 
-var kindNames = []string{"KComplete", "KIncomplete", "KError", "KEmpty", "KSilent"}
+var kindNames = []string{"KComplete", "KIncomplete", "KError", "KEmpty", "KSilent", "KIncompleteErr", "KCompleteErr"}
+
+// returnsError: the kinds whose backend call returns a non-nil error value
+func returnsError(k int) bool { return k == kError || k == kIncompleteErr || k == kCompleteErr }
 
 type tagErr struct {
 	slot  int
@@ -107,7 +112,7 @@ func makeErr(flavor, slot int, nonce string) error {
 func errValues(kinds []int, flavors []int, nonce string) []error {
 	vs := make([]error, len(kinds))
 	for i, k := range kinds {
-		if k == kError {
+		if returnsError(k) {
 			vs[i] = makeErr(flavors[i], i, nonce)
 		}
 	}
@@ -531,6 +536,10 @@ func runOnce(n int, kinds []int, order []int, parentAfter int, rs reqSpec, nonce
 			return &proxy.Response{Data: map[string]interface{}{"who": i, "nonce": nonce}, IsComplete: false}, nil
 		case kError:
 			return nil, rc.errVals[i]
+		case kIncompleteErr:
+			return &proxy.Response{Data: map[string]interface{}{"who": i, "nonce": nonce}, IsComplete: false}, rc.errVals[i]
+		case kCompleteErr:
+			return &proxy.Response{Data: map[string]interface{}{"who": i, "nonce": nonce}, IsComplete: true}, rc.errVals[i]
 		}
 		return nil, nil
 	}
@@ -676,6 +685,10 @@ func runFree(inst *instance, kinds []int, errVals []error, rs reqSpec, nonce str
 			return &proxy.Response{Data: map[string]interface{}{"who": i, "nonce": nonce}, IsComplete: false}, nil
 		case kError:
 			return nil, errVals[i]
+		case kIncompleteErr:
+			return &proxy.Response{Data: map[string]interface{}{"who": i, "nonce": nonce}, IsComplete: false}, errVals[i]
+		case kCompleteErr:
+			return &proxy.Response{Data: map[string]interface{}{"who": i, "nonce": nonce}, IsComplete: true}, errVals[i]
 		}
 		return nil, nil
 	}
@@ -890,7 +903,7 @@ func main() {
 		fl := make([]interface{}, len(kinds))
 		for i, k := range kinds {
 			ks[i] = kindNames[k]
-			if k == kError {
+			if returnsError(k) {
 				fl[i] = flavorNames[flavors[i]]
 			}
 		}
@@ -966,7 +979,7 @@ func main() {
 		// error values of the failing attempts: forced (corpus) or rotated over the case index
 		flavors := make([]int, len(kinds))
 		for i, k := range kinds {
-			if k == kError {
+			if returnsError(k) {
 				if forceFlavor >= 0 {
 					flavors[i] = forceFlavor
 				} else {
@@ -1039,6 +1052,27 @@ func main() {
 		emitCase("corpus-error-values", 3, []int{kError, kError, kIncomplete}, []int{0, 1, 2}, -1, nextReq())
 	}
 	forceFlavor = -1
+	// attempts that return a response AND an error together: one failure message each (the
+	// response is dropped); arriving before a sibling's complete answer, in numbers that would
+	// fill the N receives if such an attempt sent two messages
+	for _, c := range []struct {
+		kinds []int
+		order []int
+	}{
+		{[]int{kIncompleteErr, kComplete}, []int{0, 1}},
+		{[]int{kCompleteErr, kComplete}, []int{0, 1}},
+		{[]int{kIncompleteErr, kIncompleteErr, kComplete}, []int{0, 1, 2}},
+		{[]int{kIncompleteErr, kError, kComplete}, []int{1, 0, 2}},
+		{[]int{kCompleteErr, kIncompleteErr, kComplete}, []int{1, 0, 2}},
+		{[]int{kIncompleteErr, kEmpty, kIncompleteErr, kComplete}, []int{0, 1, 2, 3}},
+		{[]int{kIncompleteErr, kIncompleteErr, kError, kComplete}, []int{0, 1, 2, 3}},
+		{[]int{kIncompleteErr, kIncomplete}, []int{0, 1}},
+		{[]int{kCompleteErr, kError}, []int{0, 1}},
+		{[]int{kCompleteErr, kCompleteErr}, []int{1, 0}},
+		{[]int{kIncompleteErr, kSilent}, []int{0}},
+	} {
+		emitCase("corpus-response-with-error", len(c.kinds), c.kinds, c.order, -1, nextReq())
+	}
 
 	// ---- instance reuse, sequential: ONE middleware instance serves a sequence of calls that
 	// differ in outcomes, arrival order and request (state kept from one call to the next -
@@ -1092,6 +1126,26 @@ func main() {
 		}
 	}
 
+	// ---- the same with the two (response, error) kinds: every vector that contains one ----
+	for n := 2; n <= 3; n++ {
+		for _, ks := range vectors(n, 7) {
+			has, silent := false, false
+			for _, k := range ks {
+				has = has || k == kIncompleteErr || k == kCompleteErr
+				silent = silent || k == kSilent
+			}
+			if !has || (!cfg.Thorough() && n == 3 && silent) {
+				continue
+			}
+			for _, ord := range perms(nonSilent(ks)) {
+				if !cfg.Thorough() && n == 3 && r.Intn(2) != 0 {
+					continue
+				}
+				emitCase("exhaustive-response-with-error", n, ks, ord, -1, nextReq())
+			}
+		}
+	}
+
 	// ---- parent context cancelled after k dequeued messages (outside the quantifier) ----
 	for n := 2; n <= 3; n++ {
 		for _, ks := range vectors(n, 4) {
@@ -1115,6 +1169,9 @@ func main() {
 				ks[i] = kComplete
 			} else {
 				ks[i] = 1 + r.Intn(base-1)
+				if r.Chance(1, 6) {
+					ks[i] = kIncompleteErr + r.Intn(2) // a response together with an error
+				}
 			}
 		}
 		ns := nonSilent(ks)
@@ -1310,5 +1367,5 @@ func main() {
 	}
 	w.Meta["request_catalogue"] = len(cat)
 	w.Meta["aborted_after_confirmed_watchdogs"] = aborted
-	w.Close(fmt.Sprintf("corpus; every outcome vector over {complete, incomplete, error, empty, silent}^N x every arrival order of the non-silent attempts for N=2..%d (silent attempts answer when the budget expires); parent context cancelled after k dequeues for N=2..3 (quick: a third of N=3); random N=4 (quick) and N=5..9; failing attempts return rotating error VALUES (plain, context.Canceled/DeadlineExceeded bare and wrapped, *url.Error around a Client.Timeout error, Timeout()=true) while budget and parent are alive; scribbling attempts (each writes junk into the maps of its own request after recording it; 8 request variants incl. body-less, caller's request compared afterwards); instance reuse: one middleware instance serving sequences of 3-6 calls with different outcomes/orders/requests (2 corpus sequences + random ones) and 12 goroutines calling one instance at the same time (distinct (input, observation) pairs); %d request variants (method/url/path/query/params/headers x 10 bodies incl. nil, empty, binary, 64 KiB, 200 KiB x 3 reader behaviours) assigned round-robin to all scenarios; nontrivial = not all attempts complete", maxN, len(cat)), true)
+	w.Close(fmt.Sprintf("corpus; every outcome vector over {complete, incomplete, error, empty, silent}^N x every arrival order of the non-silent attempts for N=2..%d (silent attempts answer when the budget expires); parent context cancelled after k dequeues for N=2..3 (quick: a third of N=3); random N=4 (quick) and N=5..9; attempts returning a response AND an error together (kinds KIncompleteErr/KCompleteErr: corpus, every vector containing one for N=2..3 (quick: N=3 without silent, half), 1/6 of the random non-complete outcomes); failing attempts return rotating error VALUES (plain, context.Canceled/DeadlineExceeded bare and wrapped, *url.Error around a Client.Timeout error, Timeout()=true) while budget and parent are alive; scribbling attempts (each writes junk into the maps of its own request after recording it; 8 request variants incl. body-less, caller's request compared afterwards); instance reuse: one middleware instance serving sequences of 3-6 calls with different outcomes/orders/requests (2 corpus sequences + random ones) and 12 goroutines calling one instance at the same time (distinct (input, observation) pairs); %d request variants (method/url/path/query/params/headers x 10 bodies incl. nil, empty, binary, 64 KiB, 200 KiB x 3 reader behaviours) assigned round-robin to all scenarios; nontrivial = not all attempts complete", maxN, len(cat)), true)
 }
